@@ -27,6 +27,8 @@ def rsim(ctx, V, exe, n, styles=("healthy", "mixed", "faults"), prefix="rsim", m
         sc, sess = x
         if isinstance(sess, Exception):
             return None
+        if sc.tags.get("no_replay"):
+            return (0, "skipped-telnet")
         try:
             return pmreplay.replay_session(model, enq, sess, consts, version)
         except vlib.TieBroken as ex:
